@@ -124,7 +124,7 @@ CLAIMED = {
     "C15": (
         "property-based testing of removal timing plans through the real chain with streaming stub upstreams (rapid), interval oracle with generous thresholds",
         "Generated-input search: plans (remove cluster / endpoint; before the target is sent, while it waits in the authenticator between cluster resolution and dispatch, while the stub delays headers, after j streamed chunks; 0-3 bystander streams / held requests on other endpoints and clusters); the target must end at the client and at the stub within 2 s of the removal, new requests get 503 / never the removed endpoint, bystanders keep streaming for 300 ms and finish normally. Exploration; timing thresholds are an order of magnitude away from the measured behaviour (cut after < 1 ms).",
-        "Trusted: rapid, net/http loopback, wall clock for the 2 s / 300 ms thresholds (harness-side timeouts are inconclusive).",
+        "Trusted: rapid, net/http loopback, wall clock for the 2 s / 300 ms thresholds (harness-side timeouts are inconclusive). One listed open finding (upgraded connections are not cut): its witness prints KNOWN-FINDING; the generated targets are never upgraded connections, nothing of the search is relaxed.",
         "DESIGN.md 4/C15",
     ),
 }
